@@ -861,7 +861,8 @@ class OptionalSerializer(Generic[T, T_NP], TypeSerializer[Optional[T], np.void])
     def __init__(self, element_serializer: TypeSerializer[T, T_NP]) -> None:
         super().__init__(
             np.dtype(
-                [("has_value", np.bool_), ("value", element_serializer.overall_dtype())]
+                [("has_value", np.bool_), ("value", element_serializer.overall_dtype())],
+                align=True,  # as get_dtype() documents it
             )
         )
         self._element_serializer = element_serializer
